@@ -104,6 +104,7 @@ func TestC05CLI(t *testing.T) {
 	r := vh.New("C05", "cli")
 	r.Rule = "a PRNG-chosen ~2 % of the corpus files plus generated decorated programs are formatted by the ego binary and by the harness (auto and --fragment), " +
 		"generated programs are run by both, corpus test files are tested by both; distinct = distinct (command, source); non-trivial = the binary produced a result"
+	r.Assume("tests/profile is not part of the `ego test` cross-check: those tests observe the process-wide profile, which the in-process harness configures itself")
 	r.Assume("the ego binary is built from the same scratch tree as the harness and is installed next to that tree's lib/ (an installed ego keeps its library beside the binary); a bare binary without a library is not what the corpus part models")
 
 	if vh.ReplayCase() != nil {
@@ -326,7 +327,13 @@ func TestC05CLI(t *testing.T) {
 		rel, _ := filepath.Rel(root, f)
 		parts := strings.Split(filepath.ToSlash(rel), "/")
 
-		if parts[0] == "tests" && len(parts) > 2 && !hostDependent[parts[1]] {
+		// tests/profile inspects the ego profile. The in-process runner shares ONE
+		// process-wide profile, in which the harness itself sets optimizer level,
+		// extensions and library path; a fresh binary has a fresh profile. For those
+		// tests the runner does not represent the CLI and they are not sampled here
+		// (the source-vs-formatted comparison of the corpus part runs both sides in
+		// the same process and is not affected).
+		if parts[0] == "tests" && len(parts) > 2 && !hostDependent[parts[1]] && parts[1] != "profile" {
 			testFiles = append(testFiles, f)
 		}
 	}
@@ -359,7 +366,12 @@ func TestC05CLI(t *testing.T) {
 
 			cli.parse(out + "\n" + errText)
 
+			// a file without any @test gets the summary "Completed tests in ..." (no count)
 			total, failed := -1, 0
+			if strings.Contains(out, "TEST: Completed tests") {
+				total = 0
+			}
+
 			if m := completedRe.FindStringSubmatch(out); m != nil {
 				total, _ = strconv.Atoi(m[1])
 				if m[2] != "" {
